@@ -208,6 +208,25 @@ func (o op) enc(b *strings.Builder) {
 		b.WriteString(" f")
 		names(b, o.path)
 		names(b, o.src2)
+	case 'r':
+		// routes of Model/PkgRoutes.v: the syntax variant (cmp-infix-plus ..) is not part of the model input
+		rt := o.route
+		if strings.HasPrefix(rt, "cmp") {
+			rt = "cmp"
+		}
+		b.WriteString(" r " + rt)
+		names(b, o.path)
+		switch rt {
+		case "callx", "ind":
+			fmt.Fprintf(b, " %d", len(o.args))
+			for _, a := range o.args {
+				fmt.Fprintf(b, " %d", a)
+			}
+		case "hget":
+			names(b, o.src2)
+		case "defdot":
+			fmt.Fprintf(b, " %d", o.z)
+		}
 	}
 }
 
@@ -263,8 +282,43 @@ func (o op) src() []string {
 			return []string{"(= " + p + " " + q + ")"}
 		}
 	}
+	if o.kind == 'r' {
+		as := ""
+		for _, a := range o.args {
+			as += fmt.Sprintf(" %d", a)
+		}
+		switch o.route {
+		case "deref":
+			return []string{"(* " + p + ")"}
+		case "arg":
+			return []string{"((fn [xq] xq) " + p + ")"}
+		case "callx":
+			return []string{"(((fn [] " + p + "))" + as + ")"}
+		case "ind":
+			// the host binds hostg9 to the dot symbol (evalOp); the script calls it
+			return []string{"(hostg9" + as + ")"}
+		case "hget":
+			return []string{"(hget " + p + " (quote ." + strings.Join(o.src2, ".") + "))"}
+		case "cmp-infix-plus":
+			return []string{"{" + p + " += 1}"}
+		case "cmp-infix-minus":
+			return []string{"{" + p + " -= 1}"}
+		case "cmp-infix-inc":
+			return []string{"{" + p + "++}"}
+		case "cmp-infix-dec":
+			return []string{"{" + p + " --}"}
+		case "cmp-prefix-plus":
+			return []string{"(+= " + p + " 1)"}
+		case "cmp-prefix-inc":
+			return []string{"(++ " + p + ")"}
+		case "defdot":
+			return []string{fmt.Sprintf("(def %s %d)", p, o.z)}
+		}
+	}
 	panic("bad op route " + o.route)
 }
+
+var cmpRoutes = []string{"cmp-infix-plus", "cmp-infix-minus", "cmp-infix-inc", "cmp-infix-dec", "cmp-prefix-plus", "cmp-prefix-inc"}
 
 // ---------- observables ----------
 var privRe = regexp.MustCompile(`Cannot access private member '([^']*)' of package '([^']*)'`)
@@ -323,6 +377,10 @@ func render(env *zygo.Zlisp, v zygo.Sexp, depth int) string {
 
 func evalOp(env *zygo.Zlisp, o op) string {
 	var last lib.Result
+	if o.kind == 'r' && o.route == "ind" {
+		// embedding route: the host binds a global to the dot SYMBOL (not to its value)
+		env.AddGlobal("hostg9", env.MakeDotSymbol(strings.Join(o.path, ".")))
+	}
 	for _, s := range o.src() {
 		last = lib.Eval(env, s, 200000)
 		switch last.Class {
@@ -776,6 +834,63 @@ func systematic(out *lib.Out, depth int, rng *lib.Rng, setFraction int, reads bo
 	}
 }
 
+// ---------- every route into the dot-path code (Model/PkgRoutes.v) ----------
+// For every member path of a systematic world below several roots (the package, an alias, packages held by
+// hashes): dereference, argument of a function, call expression, host-bound dot symbol, compound assignment
+// in six spellings, def of the dotted name, and (hget root (quote .rest)) for EVERY split of the path.
+// None of these changes the world (compound assignment of a public member does not compile), so one
+// interpreter serves all; reads from inside follow to see that nothing was stored.
+func routes(out *lib.Out, rng *lib.Rng, depth int, all bool) {
+	w := sysWorld(depth, true)
+	env, berr := w.build()
+	if berr != "" {
+		w.declare(out)
+		out.Case(encode(w, nil), berr, false, "build-error")
+		return
+	}
+	ts := sysTargets(0, depth, nil, true)
+	roots := [][]string{{"root"}, {"al"}, {"hq", "P"}, {"hq", "N", "P"}}
+	k := 0
+	for ri, root := range roots {
+		for _, t := range ts {
+			if !all && ri >= 1 && t.level > 0 && rng.Intn(3) != 0 {
+				continue
+			}
+			k++
+			p := withRoot(root, t.path)
+			tag := []string{"routes", "kind:" + string(t.kind), "root:" + strings.Join(root, ".")}
+			var args []int64
+			if t.kind == 'F' {
+				if t.fn.body.kind != 'G' && t.fn.body.kind != 'D' {
+					args = nil // setters are called without their argument: arity error on both sides
+				} else {
+					for range t.fn.params {
+						args = append(args, 7)
+					}
+				}
+			} else if k%3 == 0 {
+				args = []int64{5}
+			}
+			ops := []op{
+				{kind: 'r', route: "deref", path: p},
+				{kind: 'r', route: "arg", path: p},
+				{kind: 'r', route: "callx", path: p, args: args},
+				{kind: 'r', route: "ind", path: p, args: args},
+				{kind: 'r', route: cmpRoutes[k%len(cmpRoutes)], path: p},
+				{kind: 'r', route: cmpRoutes[(k+3)%len(cmpRoutes)], path: p},
+				{kind: 'r', route: "defdot", path: p, z: 3100 + int64(k%7)},
+				{kind: 'g', route: "let", path: p},
+			}
+			for cut := 1; cut < len(p); cut++ {
+				ops = append(ops, op{kind: 'r', route: "hget", path: p[:cut], src2: p[cut:]})
+			}
+			for _, o := range ops {
+				runCase(out, w, env, []op{o}, append(tag, "route:"+o.route)...)
+			}
+		}
+	}
+}
+
 // ---------- assignments whose right-hand side is itself a dot path ----------
 // {T = S}, {T := S}, (set T S), (= T S) with T and S dot paths: S must be readable (a private S is
 // refused and T keeps its value); then the VALUE of S is stored (never the symbol).
@@ -1162,6 +1277,36 @@ func randomWorlds(out *lib.Out, rng *lib.Rng, n, maxDepth int) {
 				q := randPath(rng, w)
 				ops = append(ops, op{kind: 'f', route: fromRoutes[rng.Intn(len(fromRoutes))], path: p, src2: q})
 				ops = append(ops, op{kind: 'g', route: "let", path: p})
+			case x == 5 || x == 6:
+				switch y := rng.Intn(7); y {
+				case 0:
+					ops = append(ops, op{kind: 'r', route: "deref", path: p})
+				case 1:
+					ops = append(ops, op{kind: 'r', route: "arg", path: p})
+				case 2, 3:
+					var args []int64
+					if d != nil && d.kind == 'F' {
+						for range d.params {
+							args = append(args, int64(rng.Intn(50)+5100))
+						}
+					} else if rng.Intn(3) == 0 {
+						args = []int64{6}
+					}
+					ops = append(ops, op{kind: 'r', route: []string{"callx", "ind"}[y-2], path: p, args: args})
+				case 4:
+					ops = append(ops, op{kind: 'r', route: cmpRoutes[rng.Intn(len(cmpRoutes))], path: p})
+				case 5:
+					ops = append(ops, op{kind: 'r', route: "defdot", path: p, z: int64(rng.Intn(50) + 3200)})
+				default:
+					if len(p) >= 2 {
+						cut := 1 + rng.Intn(len(p)-1)
+						ops = append(ops, op{kind: 'r', route: "hget", path: p[:cut], src2: p[cut:]})
+					}
+				}
+				if len(p) < 2 {
+					ops = ops[:len(ops)-1] // the routes are about dot paths
+					ops = append(ops, op{kind: 'g', route: "let", path: p})
+				}
 			default:
 				ops = append(ops, op{kind: 'g', route: getRoutes[rng.Intn(len(getRoutes))], path: p})
 			}
@@ -1202,6 +1347,8 @@ func main() {
 	fmt.Fprintln(os.Stderr, "assign-from", time.Since(t0))
 	collisions(out, rng, a.Tier == "thorough")
 	fmt.Fprintln(os.Stderr, "collisions", time.Since(t0))
+	routes(out, rng, depth-1, a.Tier == "thorough")
+	fmt.Fprintln(os.Stderr, "routes", time.Since(t0))
 	randomWorlds(out, rng, nrand, depth)
 	fmt.Fprintln(os.Stderr, "random", time.Since(t0))
 	out.Extra["nesting_depth"] = depth
